@@ -291,6 +291,48 @@ def correspondences(tier, rng):
             return (st.language, sorted((c, cfont.getGlyphID(n_)) for c, n_ in st.cmap.items()))
         return res(go)
     out.append(Corr("cmap6_decompile", d6, impl_c6_decompile))
+    # ---- cmap format 0: 256 one-byte glyph IDs
+    from fontTools.ttLib.tables._c_m_a_p import cmap_format_0
+    def gen_cmap0():
+        m = {}
+        for _ in range(rng.randint(0, 12)):
+            c = rng.choice([0, 1, 32, 65, 127, 128, 254, 255]) if rng.chance(40) else rng.randint(0, 255)
+            if rng.chance(3): c = rng.choice([256, 300, -1])
+            m[c] = rng.choice([1, 2, 254, 255, rng.randint(1, min(NG - 1, 255))] + ([0] if rng.chance(8) else []) + ([256, NG - 1] if rng.chance(6) else []))
+        return (rng.choice([0, 0, 1, 65535] + ([65536] if rng.chance(4) else [])), sorted(m.items()))
+    c0 = [gen_cmap0() for _ in range(N(tier, 400, 6000))]
+    def impl_c0_compile(x):
+        language, items = x
+        def go():
+            st = cmap_format_0(0); st.platformID, st.platEncID, st.language = 1, 0, language
+            st.cmap = {c: gname6(g) for c, g in items}
+            return list(st.compile(cfont))
+        return res(go)
+    def oracle_c0(x):
+        language, items = x
+        r = impl_c0_compile(x)
+        if isinstance(r, Err): return None
+        st = cmap_format_0(0); st.decompile(bytes(r.v), cfont)
+        want = {c: gname6(g) for c, g in items if g != 0}
+        if st.cmap != want: return "cmap format 0 changed after compile/decompile: %r -> %r" % (want, st.cmap)
+        return None if st.language == language else "language changed"
+    out.append(Corr("cmap0_compile", c0, impl_c0_compile, oracle=oracle_c0))
+    d0 = []
+    for x in c0:
+        r = impl_c0_compile(x)
+        if isinstance(r, Err): continue
+        b = list(r.v); r_ = rng.below(8)
+        if r_ == 0: b = b[:rng.randint(0, len(b))]
+        elif r_ == 1 and b: b[rng.below(len(b))] ^= 1 << rng.below(8)
+        elif r_ == 2: b = b + [rng.randint(0, 255)]
+        elif r_ == 3: b = list(_st.pack(">HHH", 0, 6 + 200, 0)) + b[6:206]           # a consistent length that is not 262
+        d0.append(b)
+    def impl_c0_decompile(b):
+        def go():
+            st = cmap_format_0(0); st.decompile(bytes(b), cfont)
+            return (st.language, sorted((c, cfont.getGlyphID(n_)) for c, n_ in st.cmap.items()))
+        return res(go)
+    out.append(Corr("cmap0_decompile", d0, impl_c0_decompile))
     # cmap format 4 (segment mapping to delta values): runs of consecutive codes with consecutive / scattered glyph IDs on both sides of
     # splitRange's thresholds (4 / 8), code 0xFFFF, deltas that wrap, glyph index arrays, sizes at the 16-bit limits
     from fontTools.ttLib.tables._c_m_a_p import cmap_format_4, splitRange
